@@ -34,6 +34,9 @@ def queries(rng, kind, size, fill):
     return out
 
 
+BOUNDS = [2 ** 31 - 1, 2 ** 31, 2 ** 31 + 5, 2 ** 32 - 1]
+
+
 def big_script(rng, kind, size):
     """a short history on a large ring: bulk writes / reads / head and tail moves of tens of thousands of bytes, so that the
     indices pass 2^15 and 2^16 and wrap around the end"""
@@ -70,10 +73,20 @@ def random_script(rng, kind, size, nops, full_bytes=True):
             lines.append("Getc"); fill = max(0, fill - 1)
         elif r < 0.55:
             n = rng.randrange(0, size + 3)
-            lines.append("Write %s" % fmt_list([rb() for _ in range(n)])); fill = min(cap, fill + n)
+            # the C ring and ring<char> have bulk calls taking a bound; "write what fits": a bound above the length of a data block
+            # that holds at least room() bytes
+            w = "Write" if kind != "xc" or rng.random() < 0.5 else "BWrite"
+            if kind != "xi" and n >= cap - fill and (w == "BWrite" or kind == "c") and rng.random() < 0.3:
+                lines.append("%s %s %d" % (w, fmt_list([rb() for _ in range(n)]) if n else "-", rng.choice(BOUNDS)))
+            else:
+                lines.append("%s %s" % (w, fmt_list([rb() for _ in range(n)])))
+            fill = min(cap, fill + n)
         elif r < 0.68:
             k = rng.randrange(0, size + 3)
-            lines.append("Read %d" % k); fill = max(0, fill - k)
+            w = "Read" if kind != "xc" or rng.random() < 0.5 else "BRead"
+            if (w == "BRead" or kind == "c") and rng.random() < 0.15:
+                k = rng.choice(BOUNDS)         # "read everything": a bound far above what is queued
+            lines.append("%s %d" % (w, k)); fill = max(0, fill - k)
         elif r < 0.78:
             n = rng.randrange(0, cap - fill + 1)
             lines.append("MoveHead %s" % fmt_list([rb() for _ in range(n)])); fill += n
@@ -126,7 +139,10 @@ def check(ctx):
         for kind in (kinds if ctx.thorough else [kinds[wi % 3], "c"] if wi % 3 else ["c"]):
             script.append("R %s %d" % (kind, st0["size"]))
             for (lab, src, dst) in w:
-                script.append(label_to_line(lab))
+                ln = label_to_line(lab)
+                if kind == "xc" and ln.split()[0] in ("Read", "Write") and ctx.rng.random() < 0.5:
+                    ln = "B" + ln          # the bulk calls of ring<char>
+                script.append(ln)
                 if ctx.rng.random() < 0.08:
                     st = core.parse_state(g.state[dst])
                     script += queries(ctx.rng, kind, st["size"], fill_after(st))[:2]
@@ -216,9 +232,9 @@ def events_to_script(evs):
         elif n in ("Putc",):
             out.append("Putc %d" % e["b"])
         elif n in ("Write", "MoveHead"):
-            out.append("%s %s" % (n, fmt_list(e["s"])))
+            out.append("%s%s %s%s" % ("B" if e.get("bulk") else "", n, fmt_list(e["s"]), " " + e["ns"] if e.get("ns") else ""))
         elif n in ("Read", "MoveTail"):
-            out.append("%s %d" % (n, e["k"]))
+            out.append("%s%s %s" % ("B" if e.get("bulk") else "", n, e.get("ks") or e["k"]))
         elif n == "GetLast":
             out.append("GetLast %d %d %d" % (e["off"], e["cnt"], e["fe"]))
         elif n == "Fixup":
